@@ -26,6 +26,14 @@ mod kani_h {
             assert!(r as u64 == be(&c).saturating_sub(be(&s)));
         }
     }}
+    // C01: no overflow panic for codes longer than a usize (complete for the fixed length 9)
+    #[kani::proof]
+    #[kani::unwind(11)]
+    fn c01_calculate_offset_9_bytes_no_panic() {
+        let c: [u8; 9] = kani::any(); let s: [u8; 9] = kani::any();
+        let r = calculate_offset(&c, &s);
+        if c[0] == 0 && s[0] == 0 { assert!(r as u64 == be(&c[1..]).saturating_sub(be(&s[1..]))); }
+    }
     off_harness!(c26_calculate_offset_1, 1); off_harness!(c26_calculate_offset_2, 2);
     off_harness!(c26_calculate_offset_3, 3); off_harness!(c26_calculate_offset_4, 4);
 }
